@@ -522,15 +522,16 @@ def cc_helpers(p1: bool, p2: bool, p3: bool, at_least: bool) -> bool:
 # ---------------------------------------------------------------- e. TLP marking definitions are fixed instances
 TLP = {"white": "613f2e26-407d-48c7-9eca-b8e91df99dc9", "green": "34098fce-860f-48ae-8e50-ebd3cc5e41da", "amber": "f88d31f6-486f-44da-b317-01333bde0b82",
        "red": "5e57c739-391a-4eb3-b6be-7d15ca92d5ed"}
-COLORS = ["white", "green", "amber", "red", "blue"]
+COLORS = ["white", "green", "amber", "red", "blue", "WHITE", "Amber", "RED", " green", ""]      # tlp is a closed lower-case vocabulary
+NCOL = len(COLORS)
 
 
 def tlp(ci: int, ii: int, created_ms: int, v21: bool) -> bool:
     """
-    pre: 0 <= ci < 5 and 0 <= ii < 5 and 0 <= created_ms <= 1
+    pre: 0 <= ci < NCOL and 0 <= ii < 5 and 0 <= created_ms <= 1
     post: _
     """
-    ci, ii, created_ms, v21 = pick(ci, 5), pick(ii, 5), pick(created_ms, 2), pickb(v21)
+    ci, ii, created_ms, v21 = pick(ci, NCOL), pick(ii, 5), pick(created_ms, 2), pickb(v21)
     with Native():
         ok = run_tlp_case(ci, ii, created_ms, v21)
     V.reached()
